@@ -54,8 +54,8 @@ func (c *checkSchema) checkType(name string, typ ischema.Type, ss map[string]isc
 			jErr.SetFile(typ.RootFile)
 			jErr.SetIndex(bytes.Index(jErr.Index()) + typ.Begin)
 			if !strings.HasPrefix(name, "#") {
-				// Unnamed types (`@a | @b`, rule-sets of `or`) are named after a
-				// memory address: not something to show to the user.
+				// Unnamed types (`@a | @b`, rule-sets of `or`) are named with an
+				// internal sequence number: not something to show to the user.
 				jErr.SetIncorrectUserType(name)
 			}
 			panic(jErr)
